@@ -1082,6 +1082,9 @@ def d1j_same_normalisation(chk: Check) -> None:
     chk.rule("C05-D1j", "the needle of each `in <de-tagged left side>` test "
              "is the right-hand element or its `.value`, i.e. normalised "
              "exactly like the haystack", floor=2)
+    chk.rule("C05-D1m", "the de-tagged left elements of the list merger "
+             "are kept in a sequence, never in a hash index (elements may "
+             "be unhashable containers)", floor=1)
     te = prog.func("Nodes.tagless_elements")
     forms = {src(c.args[0]) for c in walk_local(te.node)
              if isinstance(c, ast.Call) and src(c.func).endswith(".append")
@@ -1095,9 +1098,35 @@ def d1j_same_normalisation(chk: Check) -> None:
     n = 0
     for q in ("Merger._merge_simple_lists", "Merger._merge_sets"):
         fi = prog.func(q)
-        hay = {src(a.targets[0]) for a in walk_local(fi.node)
-               if isinstance(a, ast.Assign) and isinstance(a.value, ast.Call)
-               and src(a.value.func).endswith("tagless_elements")}
+        hay_defs = [a for a in walk_local(fi.node)
+                    if isinstance(a, ast.Assign) and any(
+                        isinstance(c, ast.Call) and
+                        src(c.func).endswith("tagless_elements")
+                        for c in ast.walk(a.value))]
+        hay = {src(a.targets[0]) for a in hay_defs}
+        # the haystack stays a *sequence*: the elements of a "simple" list
+        # may be nested Arrays (or Hashes after a scalar), which cannot be
+        # hashed -- a set / frozenset / dict index of them raises TypeError
+        # instead of merging
+        for a in hay_defs:
+            if q.endswith("_merge_sets"):
+                continue    # members of a set are hashable by construction
+            hashed = [c for c in ast.walk(a.value) if isinstance(c, ast.Call)
+                      and src(c.func) in ("set", "frozenset", "dict",
+                                          "dict.fromkeys", "Counter")]
+            hashed += [c for c in ast.walk(a.value)
+                       if isinstance(c, (ast.SetComp, ast.DictComp, ast.Set))]
+            text = "{}: `{}`".format(fi.short, src(a)[:60])
+            if hashed:
+                chk.fail("C05-D1m", fi, a, text,
+                         "the de-tagged left elements are indexed by hash: "
+                         "an Array holding a nested Array or a Hash "
+                         "(Array-of-Arrays under arrays=unique) ends in "
+                         "TypeError: unhashable type, neither a merged "
+                         "document nor a MergeException")
+            else:
+                chk.ok("C05-D1m", fi, a, text, "kept as a list and scanned "
+                       "with ==")
         for t in walk_local(fi.node):
             if not (isinstance(t, ast.Compare) and len(t.ops) == 1 and
                     isinstance(t.ops[0], (ast.In, ast.NotIn)) and
@@ -1275,6 +1304,10 @@ def run(chk: Check) -> None:
     d1l_results_are_used(chk)
     d1k_snapshot_of_right_operand(chk)
     d2h_option_names_fold_case(chk)
+    from rules.shared import effects_not_shortcircuited_rule
+    effects_not_shortcircuited_rule(
+        chk, "C05-D1n", ("yamlpath/merger/merger.py",),
+        ("_insert_", "_merge_", "merge_with"), 15)
     from rules.shared import readonly_lookups_rule
     readonly_lookups_rule(chk, "C05-D2g",
                           ("yamlpath/merger/mergerconfig.py",), 1)
